@@ -170,7 +170,11 @@ def crypto_verify(k: dict[str, Any], tbs: bytes, sigbytes: bytes) -> bool:
                 return False
             curve = ec.SECP256R1() if k["alg"] == 13 else ec.SECP384R1()
             pub = ec.EllipticCurvePublicNumbers(int.from_bytes(blob[:size], "big"), int.from_bytes(blob[size:], "big"), curve).public_key()
-            half = len(sigbytes) // 2
+            # RFC 6605 section 4: r | s, "each integer MUST be encoded as 32 octets" (P-256) / "48 octets" (P-384): any other length is
+            # not an ECDSA RRSIG signature field, whatever numbers a lenient reader could make of it
+            if len(sigbytes) != 2 * size:
+                return False
+            half = size
             der = encode_dss_signature(int.from_bytes(sigbytes[:half], "big"), int.from_bytes(sigbytes[half:], "big"))
             pub.verify(der, tbs, ec.ECDSA(hashes.SHA256() if k["alg"] == 13 else hashes.SHA384()))
             return True
@@ -445,8 +449,19 @@ def variants(r: Any, case: dict[str, Any], tks: list[Any], tier: str, heavy: boo
     for nm, v in degenerate_ints(s0["ttl"], 2**32 - 1):
         if nm in ("zero", "max", "prefix"):
             out.append((f"control:degenerate-sig-ttl:{nm}", with_sig(ttl=v)))
-    for nm, v in degenerate_octets(s0["sig"]):
-        out.append((f"tamper:degenerate-sig-octets:{nm}", with_sig(sig=v)))
+    honest_raw = base64.b64decode(s0["sig"])
+    h2 = len(honest_raw) // 2
+    widened = [("leading-zero-octet", base64.b64encode(b"\x00" + honest_raw).decode()),
+               ("zero-padded-halves", base64.b64encode(b"\x00" + honest_raw[:h2] + b"\x00" + honest_raw[h2:]).decode())]
+    for nm, v in degenerate_octets(s0["sig"]) + widened:
+        raw2 = base64.b64decode(v)
+        same_numbers = bool(raw2) and (int.from_bytes(raw2[: len(raw2) // 2], "big"), int.from_bytes(raw2[len(raw2) // 2 :], "big")) == (int.from_bytes(honest_raw[:h2], "big"), int.from_bytes(honest_raw[h2:], "big"))
+        if s0["alg"] in (13, 14) and len(raw2) != len(honest_raw) and same_numbers:
+            # other OCTETS that a reader splitting the field in the middle turns into the same two numbers (zero octets added in front of
+            # each half; a leading zero octet of r dropped): not the fixed-width r | s of RFC 6605, an independent validator refuses it
+            out.append((f"tamper:ecdsa-sig-not-fixed-width:{nm}", with_sig(sig=v)))
+        else:
+            out.append((f"tamper:degenerate-sig-octets:{nm}", with_sig(sig=v)))
     for nm, v in degenerate_texts(s0["id"]):
         out.append((f"tamper:degenerate-sig-identifier:{nm}", with_sig(id=v)))
 
